@@ -3,6 +3,7 @@
    node of the final tree starts with its opening token and, ignoring comments and whitespace
    attached after it, ends with its closing token.
    (Definitions: Group/SpanDefs.v; proofs: Group/SpanFacts.v; the matchers themselves: C09.v.) *)
+From SqlModel.Inst Require PassTabRun.   (* the grouping tables of Group/Passes.v equal the ones regenerated from the source *)
 From SqlModel Require Import Base PyStr Node Inv Passes GroupFacts MatchSpec MatchFacts
   SpanDefs SpanFacts.
 
